@@ -52,6 +52,10 @@ pub fn generate_enc_master_key() -> Sm9EncMasterKey {
 
 impl Sm9EncKey {
     pub fn decrypt(&self, idb: &[u8], data: &[u8]) -> Sm9Result<Vec<u8>> {
+        // C1 (65 bytes) || C3 (32 bytes) || C2 (at least one byte)
+        if data.len() <= 65 + 32 {
+            return Err(Sm9Error::InvalidFieldLen);
+        }
         let c1_bytes = &data[0..65];
         let c2 = &data[(65 + 32)..];
         let c3 = &data[65..(65 + 32)];
